@@ -6,6 +6,8 @@
  *   pubf <hex> <lv>           KSI_PublicationsFile_parse -> signed length, lookups, serialize
  *   pubs <text-hex> <lv>      KSI_PublicationData_fromBase32 -> toBase32, toString
  *   tlv <hex> <lv>            KSI_TLV_parseBlob -> nested lists (recursively), serialize, toString, clone
+ *   str <hex> <buflen>        KSI_OctetString_toString (with / without separator), KSI_DataHash_toString, KSI_Integer_toDateString,
+ *                             KSI_TLV_toString into a heap buffer of exactly buflen octets
  *   ftlv <hex>                KSI_FTLV_memRead, KSI_FTLV_memReadN
  *   el <hex>                  KSI_TlvElement_parse -> serialize
  *   ffile <hex> <bufsize>     KSI_FTLV_fileRead from a file holding the octets into a heap buffer of exactly bufsize
@@ -162,6 +164,21 @@ static void do_line(char *work, const char *orig) {
 		char *s = text(w[1]); char *sc = NULL, *ho = NULL, *pa = NULL; unsigned port = 0;
 		printf("U%d", KSI_UriSplitBasic(s, &sc, &ho, &port, &pa));
 		KSI_free(sc); KSI_free(ho); KSI_free(pa); free(s);
+	} else if (n >= 3 && !strcmp(w[0], "str")) {
+		/* renderers into caller buffers of exactly the stated size (on the heap): octet string, imprint, integer as date, TLV */
+		size_t l, bl = (size_t)strtoull(w[2], NULL, 10); unsigned char *b = unhex(w[1], &l); char *buf = malloc(bl ? bl : 1), *r1, *r2, *r3;
+		KSI_CTX *ctx = NULL; KSI_OctetString *o = NULL; KSI_DataHash *h = NULL; KSI_Integer *i = NULL; KSI_TLV *t = NULL; unsigned long long v = 0; size_t k;
+		KSI_CTX_new(&ctx);
+		KSI_OctetString_new(ctx, b, l, &o);
+		r1 = KSI_OctetString_toString(o, ':', buf, bl);
+		r2 = KSI_OctetString_toString(o, 0, buf, bl);
+		if (KSI_DataHash_fromImprint(ctx, b, l, &h) == KSI_OK) KSI_DataHash_toString(h, buf, bl);
+		for (k = 0; k < l && k < 8; k++) v = (v << 8) | b[k];
+		KSI_Integer_new(ctx, v, &i); r3 = KSI_Integer_toDateString(i, buf, bl);
+		if (l >= 2 && KSI_TLV_parseBlob(ctx, b, l, &t) == KSI_OK) KSI_TLV_toString(t, buf, bl);
+		printf("T%d%d%d", r1 != NULL, r2 != NULL, r3 != NULL);
+		KSI_TLV_free(t); KSI_Integer_free(i); KSI_DataHash_free(h); KSI_OctetString_free(o); KSI_CTX_free(ctx);
+		free(buf); free(b);
 	} else if (n >= 2 && !strcmp(w[0], "alg")) {
 		char *s = text(w[1]);
 		printf("A%d", (int)KSI_getHashAlgorithmByName(s));
